@@ -570,6 +570,69 @@ def extra_tighten_boxes(ctx, rec):
         rec.session(steps, CONCS[rep % 2])
 
 
+def long_call(g, fn, N):
+    """a base call of the generator stretched to N points (its own pattern repeated, every other repetition bumped by
+    one so that repetitions differ); None when the generator offers nothing suitable"""
+    NA_ = gen_qc.NA
+    for _ in range(60):
+        c = g.base(fn)
+        n0 = len(c["lon"]) if fn in ("loc", "speed") else len(c["x"])
+        if (n0 >= 3 and (fn not in ("roc", "flat", "att", "speed", "clim") or len(c["t"]) == n0)
+                and (fn != "dens" or len(c["z"]) == n0) and (fn not in ("loc", "speed") or len(c["lat"]) == n0)
+                and not (fn == "loc" and (c["p"]["shapes"] != "same" or len(c["p"]["bbox"]) not in (0, 4)))
+                and not (fn == "valid" and c["p"]["kind"] != "num")):
+            break
+    else:
+        return None
+
+    def tile(a, bump=0):
+        return [a[i % n0] if a[i % n0] == NA_ else a[i % n0] + bump * ((i // n0) % 2) for i in range(N)]
+    if fn in ("loc", "speed"):
+        c["lon"], c["lat"] = tile(c["lon"]), tile(c["lat"])
+        c["hop"] = gen_qc.hops(c["lon"], c["lat"])
+    else:
+        c["x"] = tile(c["x"], 1)
+    if c["t"]:
+        if fn == "clim":
+            c["t"] = tile(c["t"])
+        else:
+            step = max(1, c["t"][1] - c["t"][0])
+            c["t"] = [c["t"][0] + i * step for i in range(N)]
+    if c["z"]:
+        c["z"] = tile(c["z"])
+    return c
+
+
+def extra_long_series(ctx, rec):
+    """series of a thousand to several thousand points (chunked or blocked processing, a seam every 1024 / 4096
+    elements, length-dependent code paths): every flag judged by the rule; for C17 one element next to a power-of-two
+    position is changed and the flags outside its neighbourhood must stay (locality)"""
+    g = gen_qc.Gen(ctx.seed + 137, size=10)
+    fns = ALL_FNS if ctx.prop in ("C17", "C01", "C02") else PLAN[ctx.prop]["random"]["fns"]
+    for fn in fns:
+        for rep in range(ctx.pick(2, 8)):
+            N = [1030, 2051, 4100, 1024, 8200][rep % 5]
+            c = long_call(g, fn, N)
+            if c is None:
+                continue
+            steps = [({"kind": "base", "i": 0, "k": 0}, c)]
+            if ctx.prop == "C17" and fn not in ("press",) and not (fn == "att" and c["p"]["period"] == gen_qc.NA):
+                for pos in (1023, 1024, 1025, 2048, 4096, N - 2):
+                    if pos >= N:
+                        continue
+                    d = json.loads(json.dumps(c))
+                    if fn in ("loc", "speed"):
+                        d["lon"][pos], d["lat"][pos] = gen_qc.GEO_PTS[(pos + rep) % len(gen_qc.GEO_PTS)]
+                        try:
+                            d["hop"] = gen_qc.hops(d["lon"], d["lat"])
+                        except ValueError:
+                            continue
+                    else:
+                        d["x"][pos] = (0 if d["x"][pos] == gen_qc.NA else d["x"][pos]) + 3
+                    steps.append(({"kind": "perturb", "i": pos + 1, "k": 0}, d))
+            rec.session(steps, CONCS[rep % 2])
+
+
 def extra_far_origins(ctx, rec):
     """C17: the same relative time axis on origins centuries apart (a shift by a constant too large for the model's
     integers, so it is expressed through the concretisation): 1800, 1970, 2020, 2200 -- where nanosecond stamps leave
@@ -722,43 +785,43 @@ PLAN = {
                     [M("missing_a", ["gross", "valid", "spike", "roc", "flat", "loc", "clim"], [], 5, big=True, budget=120000),
                      M("missing_b", ["att", "speed", "dens"], [], 4, budget=120000)]),
             "random": {"fns": NOPRESS, "count": (400, 5000), "kinds": [], "size": (8, 24)},
-            "extra": [extra_missing_markers]},
+            "extra": [extra_long_series, extra_missing_markers]},
     "C03": {"repo_fns": ["gross", "valid"], "mc": T([M("range", ["gross", "valid"], ["shiftboth", "recall"], 1, budget=14000)],
                     [M("range", ["gross", "valid"], ["shiftboth", "tighten"], 1, big=True, budget=150000)]),
             "random": {"fns": ["gross", "valid"], "count": (500, 6000), "kinds": ["recall", "shiftboth"], "size": (10, 30)},
-            "extra": [extra_valid_int, extra_valid_time_bounds, extra_repo_tests, extra_shared_spans]},
+            "extra": [extra_long_series, extra_valid_int, extra_valid_time_bounds, extra_repo_tests, extra_shared_spans]},
     "C08": {"repo_fns": ["clim"], "mc": T([M("clim", ["clim"], ["perturb"], 1, budget=16000)],
                     [M("clim", ["clim"], ["perturb", "tighten"], 1, big=True, budget=160000)]),
             "random": {"fns": ["clim"], "count": (500, 6000), "kinds": ["recall", "shiftt"], "size": (8, 24)},
-            "extra": [extra_repo_tests, extra_shared_config]},
+            "extra": [extra_long_series, extra_repo_tests, extra_shared_config]},
     "C09": {"repo_fns": ["spike"], "mc": T([M("spike4", ["spike"], ["reverse"], 4, budget=10000),
                      M("spike3p", ["spike"], ["perturb"], 3, budget=6000)],
                     [M("spike5", ["spike"], ["reverse"], 5, big=True, budget=120000),
                      M("spike4p", ["spike"], ["perturb", "tighten"], 4, budget=60000)]),
             "random": {"fns": ["spike"], "count": (500, 8000), "kinds": ["reverse", "negate"], "size": (10, 40)},
-            "extra": [extra_big_offsets, extra_repo_tests]},
+            "extra": [extra_long_series, extra_big_offsets, extra_repo_tests]},
     "C10": {"repo_fns": ["roc", "speed"], "mc": T([M("rates", ["roc", "speed"], ["shiftt"], 2, budget=12000),
                      M("roc3", ["roc"], ["perturb"], 3, budget=6000)],
                     [M("rates", ["roc", "speed"], ["shiftt"], 3, big=True, budget=150000),
                      M("roc4", ["roc"], ["perturb", "tighten"], 4, big=True, budget=60000)]),
             "random": {"fns": ["roc", "speed"], "count": (500, 8000), "kinds": ["shiftt"], "size": (10, 30)},
-            "extra": [extra_big_offsets, extra_repo_tests]},
+            "extra": [extra_long_series, extra_big_offsets, extra_repo_tests]},
     "C11": {"repo_fns": ["flat"], "mc": T([M("flat5", ["flat"], ["recall"], 5, budget=16000)],
                     [M("flat5", ["flat"], ["shiftv", "tighten"], 5, big=True, budget=150000)]),
             "random": {"fns": ["flat"], "count": (500, 8000), "kinds": ["negate", "shiftt"], "size": (10, 30)},
-            "extra": [extra_big_offsets, extra_repo_tests]},
+            "extra": [extra_long_series, extra_big_offsets, extra_repo_tests]},
     "C12": {"repo_fns": ["att"], "mc": T([M("att3", ["att"], ["shiftt"], 3, budget=16000)],
                     [M("att4", ["att"], ["shiftt", "shiftv"], 4, big=True, budget=150000)]),
             "random": {"fns": ["att"], "count": (400, 6000), "kinds": ["shiftv"], "size": (8, 24)},
-            "extra": [extra_repo_tests, extra_att_fractional]},
+            "extra": [extra_long_series, extra_repo_tests, extra_att_fractional]},
     "C13": {"repo_fns": ["dens", "press"], "mc": T([M("profile", ["dens", "press"], ["mirror"], 3, budget=16000)],
                     [M("profile", ["dens", "press"], ["mirror", "perturb"], 4, budget=150000)]),
             "random": {"fns": ["dens", "press"], "count": (500, 8000), "kinds": ["mirror", "shiftv"], "size": (10, 30)},
-            "extra": [extra_big_offsets, extra_repo_tests]},
+            "extra": [extra_long_series, extra_big_offsets, extra_repo_tests]},
     "C14": {"repo_fns": ["loc"], "mc": T([M("loc", ["loc"], ["perturb"], 2, budget=14000)],
                     [M("loc", ["loc"], ["perturb", "tighten"], 3, big=True, budget=150000)]),
             "random": {"fns": ["loc"], "count": (500, 8000), "kinds": ["recall"], "size": (10, 30)},
-            "extra": [extra_repo_tests]},
+            "extra": [extra_long_series, extra_repo_tests]},
     "C15": {"mc": T([M("carrier_rules", ALL_FNS, ["recall"], 1, budget=0)],
                     [M("carrier_rules", ALL_FNS, ["recall"], 2, budget=0)]),
             "extra": [extra_carriers]},
@@ -774,7 +837,7 @@ PLAN = {
                      M("locality", NOPRESS, ["perturb"], 3, budget=120000)]),
             "random": {"fns": NOPRESS, "count": (400, 6000),
                        "kinds": ["shiftv", "negate", "shiftt", "shiftboth", "reverse", "perturb", "perturb"], "size": (8, 24)},
-            "extra": [extra_subsecond_shift, extra_big_offsets, extra_far_origins]},
+            "extra": [extra_long_series, extra_subsecond_shift, extra_big_offsets, extra_far_origins]},
 }
 
 RULES = {
